@@ -412,7 +412,7 @@ FINDINGS = [
     Finding('C01-sdl-overloaded-computed', 'reparse', f'{CG}::visit_CreateConcreteLink / visit_CreateConcreteProperty / visit_CreateConcreteUnknownPointer (SDL short form)',
             'SDL declaration `overloaded [required|optional] [single|multi] [link|property] p { using (<expr>) }` (computed pointer written with a body)',
             "printed in the short form `overloaded ... p := (<expr>);`, which the grammar does not have for OVERLOADED (Unexpected ':=')",
-            sig=r"Unexpected ':='", printed=r"\boverloaded\s+[^;{}]*?:="),
+            feat='sdl-overloaded-computed', sig=r"Unexpected ':='|Missing ':'", printed=r"\boverloaded\s+[^;{}]*?:="),
     Finding('C01-sdl-trigger-qualified-name', 'same-ast|reparse', f'{CG}::visit_CreateTrigger',
             'SDL trigger declared with a module-qualified name (`trigger a::b after insert ...`; the DDL form rejects such names, the SDL grammar accepts them)',
             'only the short name is printed: CreateTrigger.name.module is lost; when the short name is a keyword that is only allowed after `::` '
@@ -431,6 +431,13 @@ FINDINGS = [
             'the block is printed right after `TYPEOF <expr>`, where `{` is read as a shape on <expr>: '
             "`create abstract infix operator o(a: int64, b: int64) -> typeof x set a := 1;` prints `... ->  TYPEOF x { set a := 1; };`",
             feat='operator-returning-typeof-block', printed=r"operator\b[^;{]*->\s*(?:\w+\s+)?TYPEOF\b[^;]*?\{"),
+    Finding('C01-sdl-link-unknown-pointer-computed-short', 'same-ast|reparse', f'{CG}::visit_CreateConcreteUnknownPointer (SDL short form inside an abstract link body)',
+            'SDL `abstract link L { p { using (<expr>) } }`: a computed pointer declared WITHOUT the `property` keyword inside an abstract link',
+            'printed in the short form `p := (<expr>);`, which in an abstract-link body is a SetField (CreateConcreteUnknownPointer -> SetField), or is rejected '
+            "when it has qualifiers / a keyword-like name (`required p := (1)`, `union := (1)`: Unexpected ':=')",
+            feat='link-unknown-pointer-computed',
+            special=lambda c, r, f: (f['kind'] == 'same-ast' and bool(re.search(r'CreateLink\.commands\[\]\|CreateConcreteUnknownPointer>SetField$', f.get('sig') or '')))
+            or (f['kind'] == 'reparse' and bool(re.search(r"Unexpected ':='|Missing ':'", f.get('sig') or '')))),
     Finding('C01-partial-reserved-bare', 'reparse|same-ast', 'edb/edgeql/quote.py::needs_quoting (only RESERVED_KEYWORD is consulted)',
             'an identifier `union`, `except` or `intersect` (partial reserved keywords) that the input had to quote',
             'printed bare; in expression position the parser reads the keyword',
@@ -540,6 +547,7 @@ REPLAYS = {
     'C01-subtype-label': ('fragment', '<tuple<a: T | U>>x'),
     'C01-alter-empty-body': ('block', 'ALTER ROLE r { }'),
     'C01-partial-reserved-bare': ('block', 'SELECT `union`.age'),
+    'C01-sdl-link-unknown-pointer-computed-short': ('sdl', 'module default { abstract link l { p { using (1) } } }'),
     'C01-typeop-left-typeof-introspect': ('fragment', 'x is ((typeof introspect T) | U)'),
     'C01-sdl-overloaded-computed': ('sdl', 'module default { type T { overloaded p { using (1) } } }'),
     'C01-sdl-trigger-qualified-name': ('sdl', 'module default { type T { trigger a::b after insert for all do (1) } }'),
@@ -658,15 +666,12 @@ def triage(argv):
         for f in r.get('fail', []):
             if f['mode'].startswith('info:'):
                 continue
-            fid = None
-            for fd in FINDINGS:
-                if fd.matches(case, r, f):
-                    fid = fd.id
-                    break
+            ms = [fd.id for fd in FINDINGS if fd.matches(case, r, f)]
+            fid = next((x for x in ms if x in listed or '*' in listed), None)
             if fid:
                 known[fid] += 1
                 continue
-            k = fkey(f)
+            k = fkey(f) if not ms else ('matches-unlisted:' + ms[0], f['kind'])
             cl[k] += 1
             if k not in ex or len(case[1]) < len(ex[k][0][1]):
                 ex[k] = (case, f)
